@@ -431,6 +431,13 @@ func (m *csMachine) ruleGet(t *rapid.T) {
 		if cancel != nil {
 			cancel()
 		}
+		if kind == "selfcancel" && !wantErr && op.Panic == nil {
+			// the context was cancelled while the call was under way: the value, or the context's error with nothing
+			// taken, are both allowed (Buffer() and the reads that follow tell which it was)
+			if r, ok := op.Res.(csGetRes); ok && r.err != nil {
+				wantErr = true
+			}
+		}
 		m.checkGetResult(op, val, wantErr)
 	} else {
 		m.getOp, m.getCancel, m.getCtxErr = op, cancel, kind == "selfcancel"
